@@ -130,4 +130,122 @@ mod c08res {
         let r = MD::new(deser_type_owned(&mut s));
         assert!(r.is_ok(), "type id 0x000A does not exist in v4 - claiming it decodes must be refuted");
     }
+    // `char::is_alphanumeric` / `is_whitespace` consult Unicode tables (binary search + skip search) that CBMC unwinds for
+    // every character; the names below are pure ASCII, where they coincide with the ASCII predicates - the stubs CHECK
+    // that the character is ASCII.
+    fn ascii_alphanumeric(c: char) -> bool {
+        assert!(c.is_ascii(), "harness input is ASCII");
+        c.is_ascii_alphanumeric()
+    }
+    fn ascii_whitespace(c: char) -> bool {
+        assert!(c.is_ascii(), "harness input is ASCII");
+        c == ' ' || ('\x09'..='\x0d').contains(&c)
+    }
+
+    /// `ParserState::take_while` finds the end of a token with `str::find(closure)`, whose pointer-based char iterator CBMC
+    /// cannot keep concrete (10+ min for an 8-byte name). For the pure-ASCII names of these harnesses it is replaced by the
+    /// obvious byte-index loop; ASCII-ness is CHECKED. (A dependency of the parser under test, not the parser itself.)
+    fn take_while_ascii<'s>(me: crate::utils::parse::ParserState<'s>, mut pred: impl FnMut(char) -> bool) -> (&'s str, crate::utils::parse::ParserState<'s>)
+    where
+        's: 's, // (makes the lifetime early-bound, as it is in `impl<'s> ParserState<'s>`)
+    {
+        let b = me.s.as_bytes();
+        let mut idx = 0;
+        while idx < b.len() {
+            assert!(b[idx] < 0x80, "harness input is ASCII");
+            if !pred(b[idx] as char) {
+                break;
+            }
+            idx += 1;
+        }
+        unsafe { (std::str::from_utf8_unchecked(&b[..idx]), crate::utils::parse::ParserState { s: std::str::from_utf8_unchecked(&b[idx..]) }) }
+    }
+
+    /// bounded stack, custom type NAMES: a single [string] can nest `SetType(SetType(...` thousands of levels deep
+    /// (9 bytes per level); the name parser is recursive, so a name nested 160 levels deep must be refused
+    #[kani::proof]
+    #[kani::unwind(140)]
+    #[kani::stub(std::rt::thread_cleanup, noop)]
+    #[kani::stub(alloc::fmt::format, empty_string)]
+    #[kani::stub(char::is_alphanumeric, ascii_alphanumeric)]
+    #[kani::stub(char::is_whitespace, ascii_whitespace)]
+    #[kani::stub(crate::utils::parse::ParserState::take_while, take_while_ascii)]
+    fn c08_custom_type_name_nesting_bounded() {
+        let name: &'static str = unsafe { std::str::from_utf8_unchecked(&NESTED_NAME) };
+        let r = MD::new(crate::frame::response::custom_type_parser::CustomTypeParser::parse(name));
+        assert!(r.is_err(), "a custom type name nested 160 levels deep must be refused (recursion depth is input-controlled)");
+    }
+    const NAME_DEPTH: usize = 160;
+    static NESTED_NAME: [u8; 9 * NAME_DEPTH + 9] = {
+        let mut raw = [0u8; 9 * NAME_DEPTH + 9];
+        let open = *b"SetType(";
+        let leaf = *b"Int32Type";
+        let mut i = 0;
+        while i < NAME_DEPTH {
+            let mut j = 0;
+            while j < 8 {
+                raw[8 * i + j] = open[j];
+                j += 1;
+            }
+            i += 1;
+        }
+        let mut j = 0;
+        while j < 9 {
+            raw[8 * NAME_DEPTH + j] = leaf[j];
+            j += 1;
+        }
+        let mut i = 0;
+        while i < NAME_DEPTH {
+            raw[8 * NAME_DEPTH + 9 + i] = b')';
+            i += 1;
+        }
+        raw
+    };
+    /// ... while an ordinary custom type name still parses: MapType(Int32Type, ListType(UTF8Type))
+    #[kani::proof]
+    #[kani::unwind(60)]
+    #[kani::stub(std::rt::thread_cleanup, noop)]
+    #[kani::stub(alloc::fmt::format, empty_string)]
+    #[kani::stub(char::is_alphanumeric, ascii_alphanumeric)]
+    #[kani::stub(char::is_whitespace, ascii_whitespace)]
+    #[kani::stub(crate::utils::parse::ParserState::take_while, take_while_ascii)]
+    fn c08_custom_type_name_ordinary_ok() {
+        static RAW: [u8; 96] = pad(*b"MapType(Int32Type,ListType(UTF8Type))");
+        let r = MD::new(crate::frame::response::custom_type_parser::CustomTypeParser::parse(unsafe { std::str::from_utf8_unchecked(&RAW[..37]) }));
+        match &*r {
+            Ok(ColumnType::Collection { typ: CollectionType::Map(k, v), .. }) => {
+                assert!(matches!(**k, ColumnType::Native(NativeType::Int)));
+                assert!(matches!(&**v, ColumnType::Collection { typ: CollectionType::List(e), .. } if matches!(**e, ColumnType::Native(NativeType::Text))));
+            }
+            _ => assert!(false, "map<int, list<text>> expected"),
+        }
+    }
+    /// termination: a parameter list that is cut off ("SetType(" - 8 bytes) must give an error; every loop of the parser
+    /// is unwound at most 40 times for this input, so an unwinding failure here means the parser does not terminate
+    #[kani::proof]
+    #[kani::unwind(40)]
+    #[kani::stub(std::rt::thread_cleanup, noop)]
+    #[kani::stub(alloc::fmt::format, empty_string)]
+    #[kani::stub(char::is_alphanumeric, ascii_alphanumeric)]
+    #[kani::stub(char::is_whitespace, ascii_whitespace)]
+    #[kani::stub(crate::utils::parse::ParserState::take_while, take_while_ascii)]
+    fn c08_custom_type_name_unterminated() {
+        // (the name is the prefix of a 96-byte constant: see `pad`)
+        static RAW: [u8; 96] = pad(*b"SetType(");
+        let r = MD::new(crate::frame::response::custom_type_parser::CustomTypeParser::parse(unsafe { std::str::from_utf8_unchecked(&RAW[..8]) }));
+        assert!(r.is_err(), "an unterminated parameter list is an error");
+    }
+    /// ... and so must a parameter list containing a character that starts no type ("SetType(#")
+    #[kani::proof]
+    #[kani::unwind(40)]
+    #[kani::stub(std::rt::thread_cleanup, noop)]
+    #[kani::stub(alloc::fmt::format, empty_string)]
+    #[kani::stub(char::is_alphanumeric, ascii_alphanumeric)]
+    #[kani::stub(char::is_whitespace, ascii_whitespace)]
+    #[kani::stub(crate::utils::parse::ParserState::take_while, take_while_ascii)]
+    fn c08_custom_type_name_stray_character() {
+        static RAW: [u8; 96] = pad(*b"SetType(#");
+        let r = MD::new(crate::frame::response::custom_type_parser::CustomTypeParser::parse(unsafe { std::str::from_utf8_unchecked(&RAW[..9]) }));
+        assert!(r.is_err(), "a stray character in a parameter list is an error");
+    }
 }
